@@ -38,7 +38,7 @@ CONSTANTS MaxObj,    \* object slots
           Modes,     \* initial modes, subset of {"normal","coro"}
           Typed,     \* TRUE: suspend_point<int> objects take part
           Ops,       \* names of the operations that take part (bias of a configuration)
-          FreeOps    \* operations that do not consume the step budget (they are bounded by MaxH)
+          Targets    \* handle counts AddTo may fill an object up to (bias to the capacity boundaries)
 
 InlineCap == 3       \* suspend_point<void>::inline_count, suspend_point.h:42
 
@@ -107,7 +107,7 @@ Init == /\ sp = [k \in Slots |-> Dead]
         /\ blocks = 0 /\ dalloc = 0 /\ ret = 0 /\ steps = 0 /\ done = FALSE
 
 Tick(op) == /\ ~done /\ op \in Ops
-            /\ IF MaxSteps = 0 \/ op \in FreeOps
+            /\ IF MaxSteps = 0
                  THEN steps' = steps     \* MaxSteps = 0: unbounded, every history over MaxH handles
                  ELSE steps < MaxSteps /\ steps' = steps + 1
             /\ done' = done
@@ -156,16 +156,6 @@ NewHandles(n) == [k \in 1..n |-> nextH + k]
 (* operator<<(coroutine_handle<>&&) :82 *)
 AddHandle(i) ==
     /\ Tick("AddHandle") /\ sp[i].live /\ nextH < MaxH
-    /\ LET r == AddRun(sp[i], <<nextH + 1>>)
-       IN sp' = [sp EXCEPT ![i] = r.o] /\ Grown(sp[i], r)
-    /\ nextH' = nextH + 1
-    /\ burst' = <<>> /\ ret' = 0
-    /\ UNCHANGED <<resumed, queue, mode>>
-
-(* the same, enabled only when it is the add() that executes new[] (object filled to capacity);
-   used instead of AddHandle by the configurations biased to the capacity boundaries *)
-AddGrow(i) ==
-    /\ Tick("AddGrow") /\ sp[i].live /\ nextH < MaxH /\ Full(sp[i])
     /\ LET r == AddRun(sp[i], <<nextH + 1>>)
        IN sp' = [sp EXCEPT ![i] = r.o] /\ Grown(sp[i], r)
     /\ nextH' = nextH + 1
@@ -284,12 +274,24 @@ Finish ==
     /\ ret' = 0 /\ NoAlloc
     /\ UNCHANGED <<sp, nextH, blocks, steps>>
 
+(* consecutive operator<<(coroutine_handle<>&&) until the object holds n handles: a macro step over
+   every boundary on the way (the replayer executes the single calls, the state is compared at the end) *)
+AddTo(i, n) ==
+    /\ Tick("AddTo") /\ sp[i].live /\ n >= Len(sp[i].h) + 2 /\ nextH + (n - Len(sp[i].h)) <= MaxH
+    /\ LET d == n - Len(sp[i].h)
+           r == AddRun(sp[i], NewHandles(d))
+       IN /\ sp' = [sp EXCEPT ![i] = r.o] /\ Grown(sp[i], r)
+          /\ nextH' = nextH + d
+    /\ burst' = <<>> /\ ret' = 0
+    /\ UNCHANGED <<resumed, queue, mode>>
+
 Kinds == {"same", "void", "int"}
 
 Next == \/ \E k \in Slots, t \in Types : ConstructEmpty(k, t) \/ ConstructH(k, t)
         \/ \E k \in Slots, i \in Slots, kind \in Kinds : MoveConstruct(k, i, kind)
-        \/ \E i \in Slots : AddHandle(i) \/ AddGrow(i) \/ Pop(i) \/ Clear(i) \/ Destroy(i) \/ CoAwait(i)
+        \/ \E i \in Slots : AddHandle(i) \/ Pop(i) \/ Clear(i) \/ Destroy(i) \/ CoAwait(i)
         \/ \E i \in Slots, n \in 1..MaxH : AddFill(i, n)
+        \/ \E i \in Slots, n \in Targets : AddTo(i, n)
         \/ \E i \in Slots, j \in Slots : MergeShl(i, j) \/ MoveAssign(i, j)
         \/ Pause
         \/ Finish
